@@ -435,6 +435,35 @@ theorem eq_never_confuses_ancestor_and_descendant (a x : Node) (ha : DictOK a) (
 
 example : Below exP (.tag 4 dB []) := .kid (by simp)
 
+/-- **A missing attribute is not an attribute whose value is `None`** — nor any other value: two tags whose attribute maps
+    differ at one key are not equal, from either side, whatever else agrees (the same number of attributes, the same other
+    attributes, name, children). `tag["disabled"] = None` (`<input disabled>`) makes the map `some none` at that key, a tag
+    without it `none`. -/
+theorem eq_false_of_attr_differs (i j : Nat) (a b : TagData) (ks ls : List Node) (k : PStr)
+    (ha : DictOK (.tag i a ks)) (hb : DictOK (.tag j b ls)) (h : attrMap a.attrs k ≠ attrMap b.attrs k) :
+    eqImpl (.tag i a ks) (.tag j b ls) = false ∧ eqImpl (.tag j b ls) (.tag i a ks) = false := by
+  constructor
+  · cases he : eqImpl (.tag i a ks) (.tag j b ls) with
+    | false => rfl
+    | true =>
+      have := ((eqSpec_tag i j a b ks ls).mp ((eq_iff_structural _ _ ha hb).mp he)).2.1 k
+      exact absurd this h
+  · cases he : eqImpl (.tag j b ls) (.tag i a ks) with
+    | false => rfl
+    | true =>
+      have := ((eqSpec_tag j i b a ls ks).mp ((eq_iff_structural _ _ hb ha).mp he)).2.1 k
+      exact absurd this.symm h
+
+/-- `<input disabled name="q">` against `<input name="q" readonly>` and `<input name="q" title="x">`: as many attributes,
+    exactly the value-less one renamed / replaced — not equal, in both directions -/
+example :
+    let base : TagData := { dB with attrs := [(ofS "disabled", none, .none), (ofS "name", none, .str 0 (ofS "q"))] }
+    let ren : TagData := { dB with attrs := [(ofS "readonly", none, .none), (ofS "name", none, .str 0 (ofS "q"))] }
+    let rep : TagData := { dB with attrs := [(ofS "name", none, .str 0 (ofS "q")), (ofS "title", none, .str 0 (ofS "x"))] }
+    eqImpl (.tag 1 base []) (.tag 2 ren []) = false ∧ eqImpl (.tag 2 ren []) (.tag 1 base []) = false ∧
+    eqImpl (.tag 1 base []) (.tag 3 rep []) = false ∧ eqImpl (.tag 3 rep []) (.tag 1 base []) = false ∧
+    attrMap base.attrs (ofS "disabled") = some .none ∧ attrMap rep.attrs (ofS "disabled") = none := by decide +kernel
+
 /-- in particular `==` does not look at the XML namespace, the prefix, any setting or any container class of a tag: changing
     them changes no comparison (an SVG `<a>` equals an HTML `<a>` with the same name, attributes and children) -/
 theorem eq_ignores_namespace_prefix_settings (i j : Nat) (d : TagData) (ns' pfx' : Option PStr) (st' : Settings)
